@@ -24,6 +24,10 @@ import FordModel.Lemmas.TypeHead
 import FordModel.Entity
 import FordModel.Lemmas.Entity
 import FordModel.C01Obs
+import FordModel.FuncHead
+import FordModel.Lemmas.FuncHead
+import FordModel.SrcFiles
+import FordModel.Lemmas.SrcFiles
 namespace Ford.C01
 open Ford.Parse
 
@@ -770,5 +774,252 @@ example :
     matchArgs [(chars! "buf")] [⟨(splitNameDimByKind (chars! "buf*(*)")).1, (splitNameDimByKind (chars! "buf*(*)")).2⟩]
       = ([.implicit (chars! "buf")], [⟨(chars! "buf*"), (chars! "(*)")⟩]) := by
   decide
+
+/-! ## Round 6: the statement that opens a function (FuncHead.lean), the set of source files (SrcFiles.lean) -/
+
+section FuncHeadProps
+open Ford Ford.TypeSpec Ford.TypeHead Ford.FuncHead Ford.Entity
+
+/-- **The result clause is found behind a language binding** ("independent of ... equivalent spellings of the
+    same declaration": Fortran allows `BIND(..) RESULT(r)` as well as `RESULT(r) BIND(..)`).  Whatever stands
+    between the argument list and the result clause - in particular EVERY `bind( .. )` clause, with any text -
+    group `result` of `FUNCTION_RE` is the name written in the LAST `result ( name )` of the statement, in any
+    letter case of the keyword and with any blanks.  No bound on any length.  (A suffix parsed item by item in the
+    order RESULT, BIND loses the name in this spelling.) -/
+theorem result_clause_found_behind_anything (pre kR w1 w2 r w3 : Str) (hk : lower kR = (chars! "result"))
+    (h1 : isBlank w1 = true) (h2 : isBlank w2 = true) (hr : ∀ c ∈ r, isWord c = true) (hne : r ≠ [])
+    (h3 : isBlank w3 = true) :
+    lastMatch resultAt (pre ++ (kR ++ (w1 ++ '(' :: (w2 ++ (r ++ (w3 ++ [')'])))))) = some r := by
+  apply lastMatch_append_some
+  have hat := resultAt_spelled kR w1 w2 r w3 [] hk h1 h2 hr hne h3
+  cases kR with
+  | nil => simp [lower] at hk
+  | cons c0 k' =>
+    have hk' : lower k' = (chars! "esult") := by
+      simp [lower] at hk ⊢; exact hk.2
+    have hY : lastMatch resultAt (w2 ++ (r ++ (w3 ++ [')']))) = none := by
+      apply lastResult_noparen
+      intro c hc
+      simp only [List.mem_append, List.mem_singleton] at hc
+      rcases hc with hc | hc | hc | hc
+      · intro h; rw [h] at hc; simp [isBlank] at h2; have := h2 _ hc; simp [isSpace] at this
+      · exact word_ne_paren (hr c hc)
+      · intro h; rw [h] at hc; simp [isBlank] at h3; have := h3 _ hc; simp [isSpace] at this
+      · rw [hc]; decide
+    have hskip : lastMatch resultAt ((k' ++ (w1 ++ ['('])) ++ (w2 ++ (r ++ (w3 ++ [')'])))) = none := by
+      rw [lastMatch_skip, hY]
+      intro c hc t
+      apply resultAt_head
+      simp only [List.mem_append, List.mem_singleton] at hc
+      rcases hc with hc | hc | hc
+      · exact lower_mem_ne k' _ 'r' hk' (by decide) c hc
+      · exact blank_lower_ne w1 'r' (by decide) h1 c hc
+      · rw [hc]; decide
+    simp only [List.cons_append, List.append_assoc, List.nil_append] at hskip hat ⊢
+    simp only [lastMatch, hskip, hat]
+
+/-- **The result clause in front of a language binding** - the other order.  `_partial`: proved for result names
+    without the letter r (then no later position of the statement can begin the word `result`; the explicit
+    hypothesis is proof economy, the correspondence stream `funcre` covers all names), EVERY bind text without
+    parentheses, any keyword case and blanks. -/
+theorem result_clause_found_before_bind_partial (pre kR w1 w2 r w3 w4 kB w5 b : Str) (hk : lower kR = (chars! "result"))
+    (h1 : isBlank w1 = true) (h2 : isBlank w2 = true) (hr : ∀ c ∈ r, isWord c = true) (hne : r ≠ [])
+    (hnr : ∀ c ∈ r, lowerChar c ≠ 'r') (h3 : isBlank w3 = true) (h4 : isBlank w4 = true)
+    (hkb : lower kB = (chars! "bind")) (h5 : isBlank w5 = true) (hb : ∀ c ∈ b, c ≠ '(') :
+    lastMatch resultAt
+      (pre ++ (kR ++ (w1 ++ '(' :: (w2 ++ (r ++ (w3 ++ ')' :: (w4 ++ (kB ++ (w5 ++ '(' :: (b ++ [')'])))))))))) = some r := by
+  apply lastMatch_append_some
+  have hat := resultAt_spelled kR w1 w2 r w3 (w4 ++ (kB ++ (w5 ++ '(' :: (b ++ [')'])))) hk h1 h2 hr hne h3
+  cases kR with
+  | nil => simp [lower] at hk
+  | cons c0 k' =>
+    have hk' : lower k' = (chars! "esult") := by
+      simp [lower] at hk ⊢; exact hk.2
+    have hY : lastMatch resultAt (b ++ [')']) = none := by
+      apply lastResult_noparen
+      intro c hc
+      simp only [List.mem_append, List.mem_singleton] at hc
+      rcases hc with hc | hc
+      · exact hb c hc
+      · rw [hc]; decide
+    have hskip : lastMatch resultAt
+        ((k' ++ (w1 ++ ('(' :: (w2 ++ (r ++ (w3 ++ (')' :: (w4 ++ (kB ++ (w5 ++ ['('])))))))))) ++ (b ++ [')'])) = none := by
+      rw [lastMatch_skip, hY]
+      intro c hc t
+      apply resultAt_head
+      simp only [List.mem_append, List.mem_cons, List.mem_singleton, List.not_mem_nil, or_false] at hc
+      rcases hc with hc | hc | hc | hc | hc | hc | hc | hc | hc | hc | hc
+      · exact lower_mem_ne k' _ 'r' hk' (by decide) c hc
+      · exact blank_lower_ne w1 'r' (by decide) h1 c hc
+      · rw [hc]; decide
+      · exact blank_lower_ne w2 'r' (by decide) h2 c hc
+      · exact hnr c hc
+      · exact blank_lower_ne w3 'r' (by decide) h3 c hc
+      · rw [hc]; decide
+      · exact blank_lower_ne w4 'r' (by decide) h4 c hc
+      · exact lower_mem_ne kB _ 'r' hkb (by decide) c hc
+      · exact blank_lower_ne w5 'r' (by decide) h5 c hc
+      · rw [hc]; decide
+    simp only [List.cons_append, List.append_assoc, List.nil_append] at hskip hat ⊢
+    simp only [lastMatch, hskip, hat]
+
+/-- **The bind text behind the result clause** is the text between the parentheses as written (blanks in front
+    of it dropped), for every text without parentheses, any keyword case and blanks, whatever precedes the clause.
+    `_partial`: the order `BIND(..) RESULT(r)` is excluded - see `bind_before_result_witness`. -/
+theorem bind_text_behind_anything_partial (pre kB w1 w2 b w : Str) (hk : lower kB = (chars! "bind"))
+    (h1 : isBlank w1 = true) (h2 : isBlank w2 = true) (hb0 : ∀ c r, b = c :: r → isSpace c = false)
+    (hb : ∀ c ∈ b, c ≠ '(') (hw : isBlank w = true) :
+    lastMatch bindAt (pre ++ (kB ++ (w1 ++ '(' :: (w2 ++ (b ++ ')' :: w))))) = some b := by
+  apply lastMatch_append_some
+  have hwc : ∀ c ∈ w, c ≠ ')' := by
+    intro c hc h; rw [h] at hc; simp [isBlank] at hw; have := hw _ hc; simp [isSpace] at this
+  have hwo : ∀ c ∈ w, c ≠ '(' := by
+    intro c hc h; rw [h] at hc; simp [isBlank] at hw; have := hw _ hc; simp [isSpace] at this
+  have hat := bindAt_spelled kB w1 w2 b w hk h1 h2 hb0 hwc
+  cases kB with
+  | nil => simp [lower] at hk
+  | cons c0 k' =>
+    have hk' : lower k' = (chars! "ind") := by
+      simp [lower] at hk ⊢; exact hk.2
+    have hY : lastMatch bindAt (w2 ++ (b ++ ')' :: w)) = none := by
+      apply lastBind_noparen
+      intro c hc
+      simp only [List.mem_append, List.mem_cons] at hc
+      rcases hc with hc | hc | hc | hc
+      · intro h; rw [h] at hc; simp [isBlank] at h2; have := h2 _ hc; simp [isSpace] at this
+      · exact hb c hc
+      · rw [hc]; decide
+      · exact hwo c hc
+    have hskip : lastMatch bindAt ((k' ++ (w1 ++ ['('])) ++ (w2 ++ (b ++ ')' :: w))) = none := by
+      rw [lastMatch_skip, hY]
+      intro c hc t
+      apply bindAt_head
+      simp only [List.mem_append, List.mem_singleton] at hc
+      rcases hc with hc | hc | hc
+      · exact lower_mem_ne k' _ 'b' hk' (by decide) c hc
+      · exact blank_lower_ne w1 'b' (by decide) h1 c hc
+      · rw [hc]; decide
+    simp only [List.cons_append, List.append_assoc, List.nil_append] at hskip hat ⊢
+    simp only [lastMatch, hskip, hat]
+
+/-- the behaviour that violates the property (known finding C01-bind-before-result): written `BIND(C) RESULT(r)`
+    the bind group runs to the last `)` of the statement and `get_parens(.., -1)` keeps one closing parenthesis:
+    the function is documented with `bind(c))` - while the result name IS found, and written in the other order
+    everything is as declared -/
+theorem bind_before_result_witness :
+    (funcRe (chars! "function f() bind(c) result(r)")).map (fun g => (g.name, g.result, g.bindC, g.bindC.bind bindText))
+      = some ((chars! "f"), some (chars! "r"), some (chars! "c) result(r"), some (chars! "c)")) ∧
+    (funcRe (chars! "function f() result(r) bind(c)")).map (fun g => (g.name, g.result, g.bindC, g.bindC.bind bindText))
+      = some ((chars! "f"), some (chars! "r"), some (chars! "c"), some (chars! "c")) := by
+  decide
+
+/-- **The result variable is the declared one** ("nothing undeclared is reported", "exactly once"): for every
+    function whose remaining variables have pairwise different names (letter case ignored), the result variable
+    is the variable declared under the result name - with everything its declaration says - and it is no longer
+    among the function's variables, which otherwise stay as they are, in order; only when nothing is declared
+    under that name an implicitly typed variable is made up, and then no variable is removed. -/
+theorem function_result_is_the_declared_variable (r : Str) (vs : List Var)
+    (hnd : (vs.map fun v => lower v.name).Nodup) :
+    takeResult false r vs =
+      match vs.find? (sameName r) with
+      | some w => (.declared w, vs.filter fun v => !sameName r v)
+      | none => (.implicit r, vs) := by
+  unfold takeResult
+  simp only [Bool.false_eq_true, if_false]
+  cases h : takeVar r vs with
+  | none => rw [(takeVar_none r vs).mp h]
+  | some p =>
+    obtain ⟨w, rest⟩ := p
+    obtain ⟨h1, h2⟩ := takeVar_some r vs hnd w rest h
+    rw [h1, h2]
+
+/-- What `FUNCTION_RE` DOES in the working tree is what `FuncHead.funcRe` computes: on every probe statement (both
+    orders of RESULT / BIND, with and without blanks, every prefix form, keyword-like names, repeated clauses,
+    malformed and foreign statements) the five groups the real compiled pattern yields - recorded on every run
+    by translate/c01.py - are the model's answer. -/
+theorem function_head_as_modelled :
+    (Generated.C01.funcProbes.all fun p => funcRe p.1 == p.2) = true ∧ Generated.C01.funcProbes.length ≥ 30 := by
+  decide +kernel
+
+/-- non-vacuity: a C-interoperable function in both suffix orders, prefix items, keyword-like names -/
+example :
+    (funcRe (chars! "pure function to_kelvin(celsius) BIND (C, name=\"0\") Result( kelvin )")).map
+        (fun g => (g.attributes, g.name, argNames g.arguments, retName g))
+      = some (some (chars! "pure"), (chars! "to_kelvin"), [(chars! "celsius")], (chars! "kelvin")) ∧
+    (funcRe (chars! "function result(bind, function) result(r)")).map (fun g => (g.name, argNames g.arguments, retName g))
+      = some ((chars! "result"), [(chars! "bind"), (chars! "function")], (chars! "r")) ∧
+    funcCleanup false ⟨none, (chars! "f"), some (chars! "(x)"), some (chars! "r"), none⟩ [(chars! "R(3)"), (chars! "x"), (chars! "tmp")]
+      = ([.declared ⟨(chars! "x"), []⟩], .declared ⟨(chars! "R"), (chars! "(3)")⟩, [⟨(chars! "tmp"), []⟩]) := by
+  decide
+
+end FuncHeadProps
+
+section SrcFilesProps
+open Ford Ford.TypeSpec Ford.SrcFiles
+
+/-- **Every source file is handed to the parser once** ("each program unit ... appears exactly once"): whatever
+    the settings - source directories that overlap, lie inside one another or are listed several times, any
+    extensions, any exclusions - and whatever the directory tree, the result of `find_all_files` has no file twice. -/
+theorem every_source_file_once (c : Cfg) : (findAllFiles c).Nodup := by
+  unfold findAllFiles
+  exact dropFiles_nodup _ _ _ (dropDirs_nodup _ _ (collect_nodup _ _ _))
+
+/-- **Exactly the selected files** ("nothing undeclared is reported", nothing declared is lost): a path is in the
+    result iff it is an entry of the tree below one of the source directories whose name ends in `.` + one of the
+    extensions, it does not match `<exclude_dir>/*` for any excluded directory, and its path relative to the
+    working directory matches none of the (rewritten) `exclude` patterns. -/
+theorem source_file_selected_iff (c : Cfg) (s : Str) :
+    s ∈ findAllFiles c ↔
+      (∃ x ∈ c.tree, x.path = s ∧ ∃ d ∈ c.dirs, ∃ e ∈ c.exts, globHit d e x = true) ∧
+      (∀ d ∈ c.exdirs, fnm (d ++ (chars! "/*")) s = false) ∧
+      (∀ p ∈ excludeAfter c, fnm p (relTo c.cwd s) = false) := by
+  unfold findAllFiles excludeAfter
+  rw [mem_dropFiles, mem_dropDirs, mem_collect]
+  constructor
+  · rintro ⟨⟨h1, h2⟩, h3⟩; exact ⟨h1, h2, h3⟩
+  · rintro ⟨h1, h2, h3⟩; exact ⟨⟨h1, h2⟩, h3⟩
+
+/-- **Equivalent spellings of the source directories select the same files**: listing a directory twice, or
+    listing a directory that lies inside a listed one (`src` and `src/legacy`), adds no file and removes none -
+    and by `every_source_file_once` no file is taken twice. -/
+theorem overlapping_source_directories_select_the_same_files (d sub : Str) (ds exts : List Str) (tree : List Entry) (s : Str) :
+    (s ∈ collect (d :: d :: ds) exts tree ↔ s ∈ collect (d :: ds) exts tree) ∧
+    (s ∈ collect (d :: (d ++ '/' :: sub) :: ds) exts tree ↔ s ∈ collect (d :: ds) exts tree) := by
+  simp only [mem_collect, List.mem_cons]
+  constructor
+  · constructor
+    · rintro ⟨x, hx, hp, d', hd', e, he, hg⟩
+      refine ⟨x, hx, hp, d', ?_, e, he, hg⟩
+      rcases hd' with h | h | h
+      · exact Or.inl h
+      · exact Or.inl h
+      · exact Or.inr h
+    · rintro ⟨x, hx, hp, d', hd', e, he, hg⟩
+      refine ⟨x, hx, hp, d', ?_, e, he, hg⟩
+      rcases hd' with h | h
+      · exact Or.inl h
+      · exact Or.inr (Or.inr h)
+  · constructor
+    · rintro ⟨x, hx, hp, d', hd', e, he, hg⟩
+      rcases hd' with h | h | h
+      · exact ⟨x, hx, hp, d', Or.inl h, e, he, hg⟩
+      · rw [h] at hg
+        exact ⟨x, hx, hp, d, Or.inl rfl, e, he, globHit_nested d sub e x hg⟩
+      · exact ⟨x, hx, hp, d', Or.inr h, e, he, hg⟩
+    · rintro ⟨x, hx, hp, d', hd', e, he, hg⟩
+      refine ⟨x, hx, hp, d', ?_, e, he, hg⟩
+      rcases hd' with h | h
+      · exact Or.inl h
+      · exact Or.inr (Or.inr h)
+
+/-- non-vacuity: `src_dir = [/p/src, /p/src/legacy, /p/src]`, two extensions: three files, once each -/
+example :
+    findAllFiles ⟨[(chars! "/p/src"), (chars! "/p/src/legacy"), (chars! "/p/src")], [(chars! "f90"), (chars! "F90")], [], [], (chars! "/p"),
+                  [⟨(chars! "/p/src/a.f90"), true⟩, ⟨(chars! "/p/src/legacy"), false⟩, ⟨(chars! "/p/src/legacy/old.f90"), true⟩,
+                   ⟨(chars! "/p/src/legacy/x.F90"), true⟩, ⟨(chars! "/p/src/notes.txt"), true⟩, ⟨(chars! "/p/app/main.f90"), true⟩]⟩
+      = [(chars! "/p/src/a.f90"), (chars! "/p/src/legacy/old.f90"), (chars! "/p/src/legacy/x.F90")] := by
+  decide
+
+end SrcFilesProps
 
 end Ford.C01
